@@ -1,7 +1,9 @@
 (* C07 — Application data cannot inject header lines or split a response.
    Property theorems only; proofs are in ProofsBase.v / ProofsInv.v / Proofs.v.
 
-   Setting: [run env ops] = a fresh RequestHandler (HTTP/1.1 GET, keep-alive), the calls [ops]
+   Setting: [run env cx ops] = a fresh RequestHandler answering the request described by [cx]
+   (HTTP/1.0 or HTTP/1.1, GET or HEAD, request "Connection:" absent / keep-alive / close -- ALL
+   theorems quantify over it), the calls [ops]
    (set_header / add_header / set_status / set_cookie / redirect, each argument a Python str or
    bytes over arbitrary code points) made one after the other with the application swallowing any
    exception, then flush() unless redirect already wrote the headers.  Result: the outcome of
@@ -11,7 +13,7 @@ From Coq Require Import String.
 From Coq Require Import List NArith Bool.
 Import ListNotations.
 From TV Require Import Lib.Obs Lib.C21_Utf8 C06.Model C07.PyTables C07.Model C07.Run
-  C07.ProofsBase C07.ProofsInv C07.Proofs C07.ProofsRoutes.
+  C07.ProofsBase C07.ProofsInv C07.Proofs C07.ProofsRoutes C07.SrcGen C07.SrcEquiv.
 Local Open Scope N_scope.
 
 Definition env0 : text * text := (t "TornadoServer/6.6", t "Mon, 12 Jan 1970 13:46:40 GMT").
@@ -24,28 +26,29 @@ Proof. split; vm_compute; reflexivity. Qed.
    empty line inside the block, or bytes after the blank line are errors) reads back exactly
    those lines; the status line is "HTTP/1.1 <code> <reason>" for a code and a reason taken from
    the calls (or the defaults / "Unknown"); every header line reads  token ": " value; every
-   header line is one of the framework's own 5 constant lines or THE line one call that was not
+   header line is one of the framework's own 7 constant lines or THE line one call that was not
    rejected is entitled to (normalised-name ": " value / "Location: " url / "Set-Cookie: "
-   cookie), and there are at most 4 + (number of entitled lines) of them: a call cannot add a
+   cookie), and there are at most 5 + (number of entitled lines) of them: a call cannot add a
    second line, a second status line, or a body. *)
 Theorem C07_header_block_is_exactly_the_intended_lines :
-  forall env ops rs fin w, env_ok env ->
-    run env ops = (rs, fin, w) -> w <> [] ->
+  forall env cx ops rs fin w, env_ok env ->
+    run env cx ops = (rs, fin, w) -> w <> [] ->
     exists sl hls,
       w = join CRLF (sl :: hls) ++ CRLF ++ CRLF /\
       strict_parse w = Some (sl, hls) /\
       In (Some sl) (status_candidates ops) /\
       forallb well_formed_header hls = true /\
       Forall (fun l => In l (default_lines env ++ framing_lines ++ app_lines ops rs)) hls /\
-      (length hls <= 4 + length (app_lines ops rs))%nat.
-Proof. intros env ops rs fin w He. exact (block_exact env He ops rs fin w). Qed.
+      (length hls <= 5 + length (app_lines ops rs))%nat.
+Proof. intros env cx ops rs fin w He. exact (block_exact env He cx ops rs fin w). Qed.
 Print Assumptions C07_header_block_is_exactly_the_intended_lines.
 
 (* the hypotheses are met by a non-trivial run (a header, a cookie, a custom reason) *)
 Example C07_main_nontrivial :
   exists rs fin w,
-    run env0 [SetHeader (Str (t "x-ab")) (Byt (t "v 1")); SetStatus 299 (Some (Str (t "Fine")));
-              SetCookie (Str (t "sid")) (Str (t "a;b")) None (Some (Str (t "/"))) None] = (rs, fin, w)
+    run env0 (mkCtx false true CKeepAlive) [SetHeader (Str (t "x-ab")) (Byt (t "v 1")); SetStatus 299 (Some (Str (t "Fine")));
+              SetCookie (Str (t "sid")) (Str (t "a;b")) None (Some (Str (t "/"))) None (mkFl (Some 60) true false);
+              SetHeaderNum (Str (t "x-n")) 42; ClearHeader (Str (t "server"))] = (rs, fin, w)
     /\ w <> [] /\ fin = Some Ok.
 Proof. eexists _, _, _. vm_compute. repeat split. discriminate. Qed.
 
@@ -53,20 +56,20 @@ Proof. eexists _, _, _. vm_compute. repeat split. discriminate. Qed.
    byte on the wire is HTAB / SP / VCHAR / obs-text, or belongs to the CRLF separators that the
    theorem above accounts for one by one. *)
 Theorem C07_only_separator_control_bytes_on_the_wire :
-  forall env ops rs fin w, env_ok env -> run env ops = (rs, fin, w) ->
+  forall env cx ops rs fin w, env_ok env -> run env cx ops = (rs, fin, w) ->
     Forall (fun b => b = 13 \/ b = 10 \/ valid_hchar b = true) w.
-Proof. intros env ops rs fin w He. exact (wire_bytes env He ops rs fin w). Qed.
+Proof. intros env cx ops rs fin w He. exact (wire_bytes env He cx ops rs fin w). Qed.
 Print Assumptions C07_only_separator_control_bytes_on_the_wire.
 
 Theorem C07_no_NUL_on_the_wire :
-  forall env ops rs fin w, env_ok env -> run env ops = (rs, fin, w) -> ~ In 0 w.
-Proof. intros env ops rs fin w He. exact (no_nul_on_wire env He ops rs fin w). Qed.
+  forall env cx ops rs fin w, env_ok env -> run env cx ops = (rs, fin, w) -> ~ In 0 w.
+Proof. intros env cx ops rs fin w He. exact (no_nul_on_wire env He cx ops rs fin w). Qed.
 Print Assumptions C07_no_NUL_on_the_wire.
 
 (* the boolean checker applied to the implementation's observable accepts the model's own output *)
 Theorem C07_model_satisfies_checker :
-  forall env ops, env_ok env -> check_case (env, Handler ops) (run_case (env, Handler ops)) = true.
-Proof. intros env ops He. exact (check_case_model env He ops). Qed.
+  forall env cx ops, env_ok env -> check_case (env, cx, Handler ops) (run_case (env, cx, Handler ops)) = true.
+Proof. intros env cx ops He. exact (check_case_model env He cx ops). Qed.
 Print Assumptions C07_model_satisfies_checker.
 
 (* ---- "the call is rejected": per argument, for every character ---- *)
@@ -89,11 +92,11 @@ Print Assumptions C07_unsafe_reason_is_replaced.
 (* cookies: a C0 control or space in the value, or a C0 control, space, ';' or DEL in the name,
    domain, path or samesite -> exception, handler unchanged *)
 Theorem C07_set_cookie_rejects_control_characters :
-  forall n v d p ss s name value,
+  forall n v d p ss fl s name value,
     native_str n = Some name -> native_str v = Some value ->
     (exists c, In c value /\ c <= 32) \/ (exists c, In c name /\ cookie_attr_bad c = true) \/
     attr_has_bad d \/ attr_has_bad p \/ attr_has_bad ss ->
-    exists e, set_cookie n v d p ss s = (Err e, s).
+    exists e, set_cookie n v d p ss fl s = (Err e, s).
 Proof. exact set_cookie_rejects. Qed.
 Print Assumptions C07_set_cookie_rejects_control_characters.
 Example C07_set_cookie_hyp_example :
@@ -102,16 +105,16 @@ Proof. split; [vm_compute; reflexivity|]. exists [47; 13; 10; 88], 13. repeat sp
 
 (* redirect: an unsafe byte in the target -> ValueError, nothing written, headers unchanged *)
 Theorem C07_redirect_rejects_unsafe_target :
-  forall u p s b c, written s = false -> utf8 u = Some b -> In c b -> valid_hchar c = false ->
-    exists s', redirect u p s = (Err EValue, s') /\ wire s' = wire s /\ written s' = false /\ hdrs s' = hdrs s.
+  forall cx u p s b c, written s = false -> utf8 u = Some b -> In c b -> valid_hchar c = false ->
+    exists s', redirect cx u p s = (Err EValue, s') /\ wire s' = wire s /\ written s' = false /\ hdrs s' = hdrs s.
 Proof. exact redirect_rejects. Qed.
 Print Assumptions C07_redirect_rejects_unsafe_target.
 
 (* the witness of DESIGN.md section 8 ("X-A\x00b: v" on the wire), fixed in /repo by 56282e5:
    the call is accepted, the flush raises ValueError and nothing reaches the wire *)
 Example C07_nul_in_header_name_rejected_at_flush :
-  run env0 [SetHeader (Str [88; 45; 65; 0; 98]) (Str (t "v"))] = ([Ok], Some (Err EValue), []).
-Proof. vm_compute. reflexivity. Qed.
+  forall cx, run env0 cx [SetHeader (Str [88; 45; 65; 0; 98]) (Str (t "v"))] = ([Ok], Some (Err EValue), []).
+Proof. intros [[|] [|] [| |]]; vm_compute; reflexivity. Qed.
 
 (* ================= routes 2 and 3: applications that reach write_headers without RequestHandler =================
    Route 2 [run_raw c reason hs]: a low-level delegate application fills its own HTTPHeaders
@@ -124,7 +127,7 @@ Proof. vm_compute. reflexivity. Qed.
    and, per accepted (name, value) pair, THE line normalised-name ": " value (plus the chunked marker /
    the three WSGI defaults), nothing more, no body. *)
 Theorem C07_raw_header_block_is_exactly_the_intended_lines :
-  forall c rsn hs rs fin w, run_raw c rsn hs = (rs, fin, w) ->
+  forall cx c rsn hs rs fin w, run_raw cx c rsn hs = (rs, fin, w) ->
     length rs = length hs /\ (fin = Ok \/ w = []) /\
     (w <> [] ->
      exists start hls,
@@ -132,16 +135,16 @@ Theorem C07_raw_header_block_is_exactly_the_intended_lines :
        w = join CRLF (start :: hls) ++ CRLF ++ CRLF /\
        strict_parse w = Some (start, hls) /\
        forallb well_formed_header hls = true /\
-       Forall (fun l => In l (header_line (k_te, v_chunked) :: raw_lines hs rs)) hls /\
-       (length hls <= 1 + length (raw_lines hs rs))%nat).
+       Forall (fun l => In l (header_line (k_te, v_chunked) :: conn_lines ++ raw_lines hs rs)) hls /\
+       (length hls <= 2 + length (raw_lines hs rs))%nat).
 Proof. exact raw_block_exact. Qed.
 Print Assumptions C07_raw_header_block_is_exactly_the_intended_lines.
 Example C07_raw_nontrivial :
-  exists rs w, run_raw 404 (t "Not Here") [HSet (t "x-ab") (t "v 1"); HAdd (t "X-C") (t "w")] = (rs, Ok, w) /\ w <> [].
+  exists rs w, run_raw (mkCtx false false CKeepAlive) 404 (t "Not Here") [HSet (t "x-ab") (t "v 1"); HAdd (t "X-C") (t "w")] = (rs, Ok, w) /\ w <> [].
 Proof. eexists _, _. vm_compute. split; [reflexivity|discriminate]. Qed.
 
 Theorem C07_wsgi_header_block_is_exactly_the_intended_lines :
-  forall env status hs w, run_wsgi (fst env) status hs = w -> w <> [] ->
+  forall env cx status hs w, run_wsgi cx (fst env) status hs = w -> w <> [] ->
     exists cs rsn c start hls,
       split_sp status = Some (cs, rsn) /\ py_int cs = Some c /\
       status_line c rsn = Some start /\
@@ -149,44 +152,68 @@ Theorem C07_wsgi_header_block_is_exactly_the_intended_lines :
       strict_parse w = Some (start, hls) /\
       forallb well_formed_header hls = true /\
       Forall (fun l => In l (wsgi_consts env ++ map pair_line hs)) hls /\
-      (length hls <= 4 + length hs)%nat.
+      (length hls <= 5 + length hs)%nat.
 Proof. exact wsgi_block_exact. Qed.
 Print Assumptions C07_wsgi_header_block_is_exactly_the_intended_lines.
 Example C07_wsgi_nontrivial :
-  run_wsgi (fst env0) (t "404 Not Here") [(t "x-ab", t "v 1")] <> [].
+  run_wsgi (mkCtx true true CClose) (fst env0) (t "404 Not Here") [(t "x-ab", t "v 1")] <> [].
 Proof. vm_compute. discriminate. Qed.
 
 (* write_headers on its own: CR, LF, NUL, any C0 control but HTAB, DEL or a code point above U+00FF in the
    reason, or in a stored header value, makes it raise before anything is written
    (the guard on the reason is what seeded/C07_1 removes for CR/LF) *)
 Theorem C07_write_headers_rejects_unsafe_reason :
-  forall c rsn h ch, In ch rsn -> valid_hchar ch = false -> exists e, write_headers c rsn h = inl e.
+  forall cx c rsn h ch, In ch rsn -> valid_hchar ch = false -> exists e, write_headers cx c rsn h = inl e.
 Proof. exact write_headers_rejects_unsafe_reason. Qed.
 Print Assumptions C07_write_headers_rejects_unsafe_reason.
 Theorem C07_write_headers_rejects_unsafe_value :
-  forall c rsn h k v ch, In (k, v) (pairs_of h) -> text_eqb k_te k = false -> In ch v -> valid_hchar ch = false ->
-    exists e, write_headers c rsn h = inl e.
+  forall cx c rsn h k v ch, In (k, v) (pairs_of h) -> text_eqb k_te k = false -> text_eqb k_conn k = false ->
+    In ch v -> valid_hchar ch = false -> exists e, write_headers cx c rsn h = inl e.
 Proof. exact write_headers_rejects_unsafe_value. Qed.
 Print Assumptions C07_write_headers_rejects_unsafe_value.
 
 (* the full-strength checker accepts the model on both routes *)
 Theorem C07_routes_model_satisfies_checker :
-  forall env,
-    (forall c rsn hs, check_case (env, Raw c rsn hs) (run_case (env, Raw c rsn hs)) = true) /\
-    (forall status hs, check_case (env, Wsgi status hs) (run_case (env, Wsgi status hs)) = true).
-Proof. intro env. split; intros; [apply check_raw|apply check_wsgi]. Qed.
+  forall env cx,
+    (forall c rsn hs, check_case (env, cx, Raw c rsn hs) (run_case (env, cx, Raw c rsn hs)) = true) /\
+    (forall status hs, check_case (env, cx, Wsgi status hs) (run_case (env, cx, Wsgi status hs)) = true).
+Proof. intros env cx. split; intros; [apply check_raw|apply check_wsgi]. Qed.
 Print Assumptions C07_routes_model_satisfies_checker.
 
 (* the former witnesses (NUL on the wire through these routes before 92da2a1) are now rejected *)
 Example C07_raw_nul_in_reason_rejected :
-  run_raw 200 [97; 0; 98] [] = ([], Err EValue, []).
+  run_raw (mkCtx true false CNone) 200 [97; 0; 98] [] = ([], Err EValue, []).
 Proof. vm_compute. reflexivity. Qed.
 Example C07_raw_nul_in_value_rejected :
-  run_raw 204 (t "OK") [HSet (t "X") [118; 0]] = ([Ok], Err EValue, []).
+  run_raw (mkCtx true false CNone) 204 (t "OK") [HSet (t "X") [118; 0]] = ([Ok], Err EValue, []).
 Proof. vm_compute. reflexivity. Qed.
 Example C07_wsgi_nul_in_reason_rejected :
-  run_wsgi (fst env0) (t "304 a" ++ [0]) [] = [].
+  run_wsgi (mkCtx true false CNone) (fst env0) (t "304 a" ++ [0]) [] = [].
 Proof. vm_compute. reflexivity. Qed.
 Example C07_raw_crlf_in_reason_rejected :
-  run_raw 200 (t "OK" ++ CRLF ++ t "Set-Cookie: x=y") [] = ([], Err EValue, []).
+  run_raw (mkCtx true false CNone) 200 (t "OK" ++ CRLF ++ t "Set-Cookie: x=y") [] = ([], Err EValue, []).
 Proof. vm_compute. reflexivity. Qed.
+
+(* ================= the guards in the source are the model's (translators/c07_src.py, regenerated every run) =================
+   The character classes of _VALID_HEADER_CHARS, _FIELD_VALUE_CHARS_RE, _ABNF.reason_phrase, _ABNF.field_name,
+   the two set_cookie classes and CR_OR_LF_RE, read from the source text, denote exactly the model's predicates
+   (for every code point); the statements that apply them (tail of write_headers incl. "for line in lines",
+   _convert_header_value, the set_status test, the head of set_cookie) are pinned by the reader, which fails
+   closed on any other shape. *)
+Theorem C07_source_guards_are_the_models :
+  (forall c, in_ranges src_valid_header_chars c = valid_hchar c) /\
+  (forall c, in_ranges src_field_value_chars c = valid_hchar c) /\
+  (forall c, in_ranges src_reason_phrase c = is_fv_char c) /\
+  (forall c, in_ranges src_field_name c = is_tchar c) /\
+  (forall c, in_ranges src_cookie_value_bad c = cookie_value_bad c) /\
+  (forall c, in_ranges src_cookie_attr_bad c = cookie_attr_bad c) /\
+  (forall l, existsb (in_ranges src_cr_or_lf) l = has_cr_lf l) /\
+  src_valid_header_chars_q = QStar /\ src_field_value_chars_q = QStar /\
+  src_reason_phrase_q = QPlus /\ src_field_name_q = QPlus.
+Proof.
+  pose proof src_valid_header_chars_ok as [A1 A2]. pose proof src_field_value_chars_ok as [B1 B2].
+  pose proof src_reason_phrase_ok as [C1 C2]. pose proof src_field_name_ok as [D1 D2].
+  pose proof src_cookie_classes_ok as (E1 & E2 & _).
+  repeat split; auto. apply src_cr_lf_ok.
+Qed.
+Print Assumptions C07_source_guards_are_the_models.
